@@ -388,3 +388,11 @@ CORPUS += [
     V("C06", "op-checker-return-leg-subtracted", _OPE, '                + (td["locs"][..., 0:1, :] - td["locs"]).norm(p=2, dim=-1)', '                - (td["locs"][..., 0:1, :] - td["locs"]).norm(p=2, dim=-1)', "C06.v"),
     V("C01", "eq-op-mask-leg-operands-swapped", _OPE, '(td["locs"] - current_loc).norm(p=2, dim=-1)', '(current_loc - td["locs"]).norm(p=2, dim=-1)', None),
 ]
+
+# ---- from the generator mutation sweep after round 7: the horizon H of the MTVRP window start (C18.p)
+_HM = "        h_max = (self.max_time - service_time - tw_length) / d_0i * speed - 1"
+CORPUS += [
+    V("C18", "mtvrp-horizon-plus-one", _MG, _HM, "        h_max = (self.max_time - service_time - tw_length) / d_0i * speed + 1", "C18.p"),
+    V("C18", "mtvrp-horizon-length-added", _MG, _HM, "        h_max = (self.max_time - service_time + tw_length) / d_0i * speed - 1", "C18.p"),
+    V("C18", "eq-mtvrp-horizon-reordered", _MG, _HM, "        h_max = speed * (self.max_time - tw_length - service_time) / d_0i - 1", None),
+]
